@@ -634,7 +634,7 @@ where
         DatasetBase<Array2<F>, T::Owned>,
     )> {
         let targets = self.as_targets();
-        let fold_size = targets.len() / k;
+        let fold_size = self.nsamples() / k;
 
         // Generates all k folds of records and targets
         let mut records_chunks: Vec<_> =
